@@ -426,6 +426,7 @@ fn gen_lw(rng: &mut Rng, tier: u32) -> String {
             3 => 65551,
             4 => 65555,
             5 => 1 + rng.below(70_000) as usize,
+            _ if rng.chance(3) => 1_000_000_001 + rng.below(4) as usize,
             _ => 1 + rng.below(300) as usize,
         })
         .collect();
